@@ -90,6 +90,8 @@ type vfWorld struct {
 	probeTransport *http.Transport
 
 	tearing        atomic.Bool
+	proxyWriteLag  time.Duration // applied to connections the proxy opens to targets
+	reqBodyClosed  atomic.Bool   // the inbound request body was read after net/http had closed it
 	savedLogger    *slog.Logger
 	savedTmp       string
 	closed         bool
@@ -226,6 +228,7 @@ func vfInstallGlobals() {
 			if err != nil {
 				return nil, err
 			}
+			c.writeLag = w.proxyWriteLag
 			return c, nil
 		}
 		verifPointFn = func(name string, args ...any) {
